@@ -8,7 +8,7 @@ plain dict results that the parent folds into the Run.
 """
 import json, os, sys, time, traceback, multiprocessing as mp
 import z3
-from .nir import Netlist, prove
+from .nir import Netlist, prove, preserved_domains, build_netlist, Fragment
 from . import cosim
 from ..common import Run, EngineFault, Undecided, BASE_ASSUMPTIONS_L2, VERIF
 
@@ -59,6 +59,25 @@ class Ctx:
         nl = Netlist(frag, probes=probes, ports=ports if ports is not None else
                      [sig for path, member, sig in component.signature.flatten(component)])
         self.nl = nl
+        # One elaboration result stands for "the hardware of this component" in every clause.  That is only meaningful if a second
+        # elaboration of the SAME instance gives the same netlist (simulating and then synthesising one object, or simulating it
+        # twice, elaborates it twice): checked here for every configuration of every per-configuration check.
+        if getattr(self, "check_again", True) and not isinstance(component, Fragment):
+            try:
+                frag2 = Fragment.get(component, None)
+                with preserved_domains(frag2):
+                    design2 = frag2.prepare(ports=nl.ports, hierarchy=("top",))
+                text2 = str(build_netlist(design2, all_undef_to_ff=False))
+                same, detail = (text2 == str(nl.nl)), "the netlist of the second elaboration differs from the first"
+                if not same:
+                    detail += f" ({len(str(nl.nl).splitlines())} vs {len(text2.splitlines())} lines)"
+            except Exception as e:
+                same, detail = False, f"second elaboration raised {type(e).__name__}: {e}"
+            self.results.append({"name": f"same_hardware_when_elaborated_again@{self.key}", "clause": "same_hardware_when_elaborated_again",
+                                 "status": "discharged" if same else "failed", "time": 0.0,
+                                 "replay": {"confirmed": True, "how": "the same component instance elaborated twice natively; NIR netlists compared",
+                                            "detail": detail if not same else ""},
+                                 "cfg": self.cfg, "known_key": "same_hardware_when_elaborated_again", "solver": "native evaluation"})
         self.info["cells"] = len(nl.cells)
         self.info["state_bits"] = nl.n_state_bits()
         self.info["translate_s"] = round(time.time() - t, 3)
